@@ -109,8 +109,85 @@ theorem step_two {α : Type} {g a b : Bool} {e1 e2 : LoadErr} {k : Unit → Exce
   · obtain ⟨c, h'⟩ := step_throw (c := a) h
     exact ⟨fun _ => c, nofun, h'⟩
 
-/-- every validation step of `loadRule`, read off a successful result -/
-theorem loadRule_ok_inv {rxOk : Bytes → Bool} {dm : MatchTy} {dobs : ObsTy} {dt : Int} {db : List V} {dq : List (V × V)}
+theorem bnot_eq_false {b : Bool} (h : (!b) = false) : b = true := by
+  cases b
+  · cases h
+  · rfl
+
+/-- same continuation on both branches: the branches only choose an argument (a `mut` variable) -/
+theorem step_ite_arg {α β : Type} {c : Bool} {a b : β} {k : β → Except LoadErr α} {x : α}
+    (h : (if c = true then k a else k b) = Except.ok x) : k (if c = true then a else b) = .ok x := by
+  cases c <;> exact h
+
+/-! #### the effective per-rule options, as functions of the raw rule -/
+
+/-- `histogram_options.buckets` (`[]` when absent) -/
+def rawBuckets (r : RawRule V) : List V := match r.histOpts with | some (some b) => b | _ => []
+/-- `summary_options.quantiles` (`[]` when absent) -/
+def rawQuantiles (r : RawRule V) : List (V × V) := match r.summaryOpts with | some (some q, _) => q | _ => []
+/-- `summary_options.max_age` (0 when absent) -/
+def rawMaxAge (r : RawRule V) : Int := match r.summaryOpts with | some (_, a, _, _) => a | none => 0
+/-- `summary_options.age_buckets` (0 when absent) -/
+def rawAgeB (r : RawRule V) : Nat := match r.summaryOpts with | some (_, _, a, _) => a | none => 0
+
+/-- buckets after the legacy `buckets` key was folded in (histogram-typed rules only) -/
+def legacyOrRawBuckets (r : RawRule V) : List V :=
+  match r.legacyBuckets with
+  | some lb => if !lb.isEmpty then lb else rawBuckets r
+  | none => rawBuckets r
+
+/-- quantiles after the legacy `quantiles` key was folded in (summary-typed rules only) -/
+def legacyOrRawQuantiles (r : RawRule V) : List (V × V) :=
+  match r.legacyQuantiles with
+  | some lq => if !lq.isEmpty then lq else rawQuantiles r
+  | none => rawQuantiles r
+
+/-- the rule ends up with `HistogramOptions != nil`: it is histogram-typed, or it has `histogram_options` -/
+def effHasHist (r : RawRule V) (ot : ObsTy) : Bool := if ot == .histogram then true else r.histOpts.isSome
+
+/-- the effective `HistogramOptions.Buckets` of a rule whose observer type is `ot`, for default buckets `db` -/
+def effBuckets (r : RawRule V) (ot : ObsTy) (db : List V) : List V :=
+  if ot == .histogram then (if (legacyOrRawBuckets r).isEmpty then db else legacyOrRawBuckets r) else rawBuckets r
+
+/-- the rule ends up with `SummaryOptions != nil` -/
+def effHasSum (r : RawRule V) (ot : ObsTy) : Bool := if ot == .summary then true else r.summaryOpts.isSome
+
+def effQuantiles (r : RawRule V) (ot : ObsTy) (dq : List (V × V)) : List (V × V) :=
+  if ot == .summary then (if (legacyOrRawQuantiles r).isEmpty then dq else legacyOrRawQuantiles r) else rawQuantiles r
+
+def effMaxAge (r : RawRule V) (ot : ObsTy) (dma : Int) : Int :=
+  if ot == .summary then (if rawMaxAge r == 0 then dma else rawMaxAge r) else rawMaxAge r
+
+def effAgeB (r : RawRule V) (ot : ObsTy) (dab : Nat) : Nat :=
+  if ot == .summary then (if rawAgeB r == 0 then dab else rawAgeB r) else rawAgeB r
+
+/-- the age buckets of a loaded rule are its own `summary_options.age_buckets` or the defaults' -/
+theorem effAgeB_cases (r : RawRule V) (ot : ObsTy) (dab : Nat) : effAgeB r ot dab = rawAgeB r ∨ effAgeB r ot dab = dab := by
+  unfold effAgeB
+  split
+  · split
+    · exact Or.inr rfl
+    · exact Or.inl rfl
+  · exact Or.inl rfl
+
+variable [NumOps V]
+
+/-- the option part of a successful `loadRule`: the effective options are the functions above, and they
+    passed `validateBuckets` / `validateSummaryOptions` -/
+structure RuleOptsFacts (r : RawRule V) (ot : ObsTy) (db : List V) (dq : List (V × V)) (dma : Int) (dab : Nat)
+    (rule : Rule V) : Prop where
+  observerType : rule.observerType = ot
+  hasHistOpts : rule.hasHistOpts = effHasHist r ot
+  buckets : rule.buckets = effBuckets r ot db
+  hasSummaryOpts : rule.hasSummaryOpts = effHasSum r ot
+  quantiles : rule.quantiles = effQuantiles r ot dq
+  maxAge : rule.maxAge = effMaxAge r ot dma
+  ageBuckets : rule.ageBuckets = effAgeB r ot dab
+  bucketsOk : (effHasHist r ot && !strictlyIncreasing (effBuckets r ot db)) = false
+  summaryOk : (effHasSum r ot && !summaryOptsOk (effQuantiles r ot dq) (effMaxAge r ot dma) (effAgeB r ot dab)) = false
+
+/-- every validation step of `loadRule`, read off a successful result, and the options of the resulting rule -/
+theorem loadRule_ok_full {rxOk : Bytes → Bool} {dm : MatchTy} {dobs : ObsTy} {dt : Int} {db : List V} {dq : List (V × V)}
     {dma : Int} {dab dbc : Nat} {r : RawRule V} {rule : Rule V}
     (h : loadRule rxOk dm dobs dt db dq dma dab dbc r = .ok rule) :
     ∃ obs0 tim0 mt0 act0 mmt,
@@ -126,7 +203,8 @@ theorem loadRule_ok_inv {rxOk : Bytes → Bool} {dm : MatchTy} {dobs : ObsTy} {d
       (r.summaryOpts.isSome && r.legacyQuantiles.isSome && sumQuantSet r) = false ∧
       (r.histOpts.isSome && r.legacyBuckets.isSome && histBucketsSet r) = false ∧
       (effObs obs0 tim0 dobs = .histogram → r.summaryOpts.isSome = false) ∧
-      (effObs obs0 tim0 dobs = .summary → r.histOpts.isSome = false) := by
+      (effObs obs0 tim0 dobs = .summary → r.histOpts.isSome = false) ∧
+      RuleOptsFacts r (effObs obs0 tim0 dobs) db dq dma dab rule := by
   unfold loadRule at h
   obtain ⟨obs0, h1, h⟩ := except_ok_of_bind h
   obtain ⟨tim0, h2, h⟩ := except_ok_of_bind h
@@ -148,21 +226,120 @@ theorem loadRule_ok_inv {rxOk : Bytes → Bool} {dm : MatchTy} {dobs : ObsTy} {d
   obtain ⟨c6, h⟩ := step_throw h
   refine ⟨c5, c6, ?_⟩
   clear c5 c6
-  rcases step_if h with ⟨g, h'⟩ | ⟨g, h'⟩
-  · obtain ⟨c7, _⟩ := step_throw h'
-    have g' : effObs obs0 tim0 dobs = .histogram := by
-      have : (effObs obs0 tim0 dobs == ObsTy.histogram) = true := g
-      simpa using this
-    exact ⟨fun _ => c7, fun hs => by rw [g'] at hs; cases hs⟩
-  · have g' : effObs obs0 tim0 dobs ≠ .histogram := by
-      intro hh
-      have : (effObs obs0 tim0 dobs == ObsTy.histogram) = false := g
-      rw [hh] at this; cases this
-    refine ⟨fun hh => absurd hh g', fun hs => ?_⟩
-    rcases step_if h' with ⟨g2, h''⟩ | ⟨g2, _⟩
-    · exact (step_throw h'').1
-    · have : (effObs obs0 tim0 dobs == ObsTy.summary) = false := g2
-      rw [hs] at this; cases this
+  -- the `mut` variables: name the join points, then follow the one path through them
+  extract_lets hasHist buckets hasSum quantiles maxAge ageB bufCap ttl tt dbc' dab' dma' dq' jpA db' jpH1 jpH0 at h
+  -- observer type histogram: `hasHist := true`, legacy buckets, default buckets
+  have hA : (effObs obs0 tim0 dobs = .histogram → r.summaryOpts.isSome = false) ∧
+      jpA () (effHasHist r (effObs obs0 tim0 dobs)) (effBuckets r (effObs obs0 tim0 dobs) db) = .ok rule := by
+    rcases step_if h with ⟨g, h'⟩ | ⟨g, h'⟩
+    · obtain ⟨c7, h'⟩ := step_throw h'
+      have g' : (effObs obs0 tim0 dobs == ObsTy.histogram) = true := g
+      refine ⟨fun _ => c7, ?_⟩
+      dsimp -zeta only [jpH0] at h'
+      have h'' : jpH1 () (legacyOrRawBuckets r) = .ok rule := by
+        unfold legacyOrRawBuckets
+        split at h'
+        · rename_i lb heq; simp only [heq]; exact step_ite_arg h'
+        · rename_i heq; simp only [heq]; exact h'
+      dsimp -zeta only [jpH1] at h''
+      have h3 := step_ite_arg h''
+      simp only [effHasHist, effBuckets, g', if_true]
+      exact h3
+    · have g' : (effObs obs0 tim0 dobs == ObsTy.histogram) = false := g
+      refine ⟨fun hh => ?_, ?_⟩
+      · rw [hh] at g'; cases g'
+      · simp only [effHasHist, effBuckets, g']
+        exact h'
+  clear h
+  obtain ⟨c7, hA⟩ := hA
+  refine ⟨c7, ?_⟩
+  clear c7
+  dsimp -zeta only [jpA] at hA
+  extract_lets jpF jpS2 jpS1 jpS0 at hA
+  -- observer type summary: `hasSum := true`, legacy quantiles, the defaults for unset options
+  have hF : (effObs obs0 tim0 dobs = .summary → r.histOpts.isSome = false) ∧
+      ∃ bc, jpF () (effHasSum r (effObs obs0 tim0 dobs)) (effQuantiles r (effObs obs0 tim0 dobs) dq)
+        (effMaxAge r (effObs obs0 tim0 dobs) dma) (effAgeB r (effObs obs0 tim0 dobs) dab) bc = .ok rule := by
+    rcases step_if hA with ⟨g, h'⟩ | ⟨g, h'⟩
+    · obtain ⟨c8, h'⟩ := step_throw h'
+      have g' : (effObs obs0 tim0 dobs == ObsTy.summary) = true := g
+      refine ⟨fun hs => ?_, ?_⟩
+      · have : effHasHist r (effObs obs0 tim0 dobs) = r.histOpts.isSome := by rw [hs]; rfl
+        rw [← this]; exact c8
+      dsimp -zeta only [jpS0] at h'
+      have h1 : jpS1 () (legacyOrRawQuantiles r) = .ok rule := by
+        unfold legacyOrRawQuantiles
+        split at h'
+        · rename_i lq heq; simp only [heq]; exact step_ite_arg h'
+        · rename_i heq; simp only [heq]; exact h'
+      dsimp -zeta only [jpS1] at h1
+      have h2 := step_ite_arg h1
+      dsimp -zeta only [jpS2] at h2
+      extract_lets jpM at h2
+      have h3 := step_ite_arg h2
+      dsimp -zeta only [jpM] at h3
+      extract_lets jpAge at h3
+      have h4 := step_ite_arg h3
+      dsimp -zeta only [jpAge] at h4
+      have h5 := step_ite_arg h4
+      refine ⟨if (bufCap == 0) = true then dbc' else bufCap, ?_⟩
+      simp only [effHasSum, effQuantiles, effMaxAge, effAgeB, g', if_true]
+      exact h5
+    · have g' : (effObs obs0 tim0 dobs == ObsTy.summary) = false := g
+      refine ⟨fun hh => ?_, bufCap, ?_⟩
+      · rw [hh] at g'; cases g'
+      · simp only [effHasSum, effQuantiles, effMaxAge, effAgeB, g']
+        exact h'
+  clear hA
+  obtain ⟨c8, bc, hF⟩ := hF
+  refine ⟨c8, ?_⟩
+  clear c8
+  -- `validateBuckets`, `validateSummaryOptions`
+  dsimp -zeta only [jpF] at hF
+  obtain ⟨k1, hF⟩ := step_throw hF
+  obtain ⟨k2, hF⟩ := step_throw hF
+  cases hF
+  exact ⟨rfl, rfl, rfl, rfl, rfl, rfl, rfl, k1, k2⟩
+
+/-- every validation step of `loadRule`, read off a successful result -/
+theorem loadRule_ok_inv {rxOk : Bytes → Bool} {dm : MatchTy} {dobs : ObsTy} {dt : Int} {db : List V} {dq : List (V × V)}
+    {dma : Int} {dab dbc : Nat} {r : RawRule V} {rule : Rule V}
+    (h : loadRule rxOk dm dobs dt db dq dma dab dbc r = .ok rule) :
+    ∃ obs0 tim0 mt0 act0 mmt,
+      optDec decObserverType r.observerType = .ok obs0 ∧
+      optDec decObserverType r.timerType = .ok tim0 ∧
+      optDec decMatchType r.matchType = .ok mt0 ∧
+      optDec decAction r.action = .ok act0 ∧
+      optDec decMetricType r.matchMetricType = .ok mmt ∧
+      r.labels.all (fun kv => labelNameOk kv.1) = true ∧
+      r.name.isEmpty = false ∧ metricNameOk r.name = true ∧
+      (mt0.getD dm = .glob → matchLineOk (splitOn 46 r.matchStr) = true) ∧
+      (mt0.getD dm ≠ .glob → rxOk r.matchStr = true) ∧
+      (r.summaryOpts.isSome && r.legacyQuantiles.isSome && sumQuantSet r) = false ∧
+      (r.histOpts.isSome && r.legacyBuckets.isSome && histBucketsSet r) = false ∧
+      (effObs obs0 tim0 dobs = .histogram → r.summaryOpts.isSome = false) ∧
+      (effObs obs0 tim0 dobs = .summary → r.histOpts.isSome = false) := by
+  obtain ⟨obs0, tim0, mt0, act0, mmt, f1, f2, f3, f4, f5, f6, f7, f8, f9, f10, f11, f12, f13, f14, _⟩ := loadRule_ok_full h
+  exact ⟨obs0, tim0, mt0, act0, mmt, f1, f2, f3, f4, f5, f6, f7, f8, f9, f10, f11, f12, f13, f14⟩
+
+/-- what `validateBuckets` / `validateSummaryOptions` left on a loaded rule, in terms of the rule alone:
+    if it carries histogram options their buckets are strictly increasing, if it carries summary options
+    they pass `summaryOptsOk`; its age buckets are the raw rule's own or the defaults' -/
+theorem loadRule_ok_opts {rxOk : Bytes → Bool} {dm : MatchTy} {dobs : ObsTy} {dt : Int} {db : List V} {dq : List (V × V)}
+    {dma : Int} {dab dbc : Nat} {r : RawRule V} {rule : Rule V}
+    (h : loadRule rxOk dm dobs dt db dq dma dab dbc r = .ok rule) :
+    (rule.hasHistOpts = true → strictlyIncreasing rule.buckets = true) ∧
+    (rule.hasSummaryOpts = true → summaryOptsOk rule.quantiles rule.maxAge rule.ageBuckets = true) ∧
+    (rule.ageBuckets = rawAgeB r ∨ rule.ageBuckets = dab) := by
+  obtain ⟨obs0, tim0, _, _, _, _, _, _, _, _, _, _, _, _, _, _, _, _, _, f⟩ := loadRule_ok_full h
+  refine ⟨fun hh => ?_, fun hs => ?_, ?_⟩
+  · have := f.bucketsOk
+    rw [← f.hasHistOpts, ← f.buckets, hh] at this
+    simpa using this
+  · have := f.summaryOk
+    rw [← f.hasSummaryOpts, ← f.quantiles, ← f.maxAge, ← f.ageBuckets, hs] at this
+    simpa using this
+  · rw [f.ageBuckets]; exact effAgeB_cases _ _ _
 
 /-- a rule that fails one of the checks is rejected -/
 theorem loadRule_error_of {rxOk : Bytes → Bool} {dm : MatchTy} {dobs : ObsTy} {dt : Int} {db : List V} {dq : List (V × V)}
@@ -189,6 +366,37 @@ structure LoadDefaults (V : Type) where
   dAgeB : Nat
   dBufCap : Nat
 
+omit [NumOps V] in
+/-- the defaults' summary options after `MapperConfigDefaults.UnmarshalYAML` (legacy `quantiles` replace an empty
+    `summary_options.quantiles` — and with them the whole option set) -/
+def defSumOpts (raw : RawConfig V) : RawSummaryOpts V :=
+  if raw.defaults.summaryOpts.quantiles.isEmpty && !raw.defaults.legacyQuantiles.isEmpty
+  then { quantiles := raw.defaults.legacyQuantiles } else raw.defaults.summaryOpts
+
+omit [NumOps V] in
+/-- the defaults' histogram buckets after `MapperConfigDefaults.UnmarshalYAML` -/
+def defHistBuckets (raw : RawConfig V) : List V :=
+  if raw.defaults.histBuckets.isEmpty && !raw.defaults.legacyBuckets.isEmpty
+  then raw.defaults.legacyBuckets else raw.defaults.histBuckets
+
+omit [NumOps V] in
+/-- the effective default buckets: the configured ones, else the library's (`prometheus.DefBuckets`) -/
+def effDefBuckets (raw : RawConfig V) (db : List V) : List V :=
+  if (defHistBuckets raw).isEmpty then db else defHistBuckets raw
+
+omit [NumOps V] in
+/-- the effective default quantiles: the configured ones, else the exporter's `defaultQuantiles` -/
+def effDefQuantiles (raw : RawConfig V) (dq : List (V × V)) : List (V × V) :=
+  if (defSumOpts raw).quantiles.isEmpty then dq else (defSumOpts raw).quantiles
+
+omit [NumOps V] in
+theorem defSumOpts_ageBuckets (raw : RawConfig V) :
+    (defSumOpts raw).ageBuckets = raw.defaults.summaryOpts.ageBuckets ∨ (defSumOpts raw).ageBuckets = 0 := by
+  unfold defSumOpts
+  split
+  · exact Or.inr rfl
+  · exact Or.inl rfl
+
 theorem load_ok_inv {rxOk : Bytes → Bool} {db : List V} {dq : List (V × V)} {raw : RawConfig V} {cfg : Config V}
     (h : load rxOk db dq raw = .ok cfg) :
     ∃ obs0 tim0 mt0,
@@ -198,15 +406,24 @@ theorem load_ok_inv {rxOk : Bytes → Bool} {db : List V} {dq : List (V × V)} {
       ∃ d : LoadDefaults V, ∃ rules,
         raw.rules.mapM (loadRule rxOk d.dMatch d.dObs d.dTtl d.dBuckets d.dQuant d.dMaxAge d.dAgeB d.dBufCap) = .ok rules ∧
         cfg.rules = rules ∧
-        d.dMatch = mt0.getD .glob ∧ d.dObs = defaultObs obs0 tim0 := by
+        d.dMatch = mt0.getD .glob ∧ d.dObs = defaultObs obs0 tim0 ∧
+        -- the effective defaults, and `validateBuckets` / `validateSummaryOptions` on them
+        d.dBuckets = effDefBuckets raw db ∧ d.dQuant = effDefQuantiles raw dq ∧
+        d.dMaxAge = (defSumOpts raw).maxAge ∧ d.dAgeB = (defSumOpts raw).ageBuckets ∧
+        strictlyIncreasing d.dBuckets = true ∧ summaryOptsOk d.dQuant d.dMaxAge d.dAgeB = true ∧
+        cfg.dObserverType = d.dObs ∧ cfg.dBuckets = d.dBuckets ∧ cfg.dQuantiles = d.dQuant ∧
+        cfg.dMaxAge = d.dMaxAge ∧ cfg.dAgeBuckets = d.dAgeB := by
   unfold load at h
   obtain ⟨obs0, h1, h⟩ := except_ok_of_bind h
   obtain ⟨tim0, h2, h⟩ := except_ok_of_bind h
   obtain ⟨mt0, h3, h⟩ := except_ok_of_bind h
+  obtain ⟨v1, h⟩ := step_throw h
+  obtain ⟨v2, h⟩ := step_throw h
   obtain ⟨rules, h4, h⟩ := except_ok_of_bind h
-  refine ⟨obs0, tim0, mt0, h1, h2, h3, ⟨_, _, _, _, _, _, _, _⟩, rules, h4, ?_, rfl, rfl⟩
-  cases h
-  rfl
+  refine ⟨obs0, tim0, mt0, h1, h2, h3, ⟨_, _, _, _, _, _, _, _⟩, rules, h4, ?_, rfl, rfl, rfl, rfl, rfl, rfl,
+    bnot_eq_false v1, bnot_eq_false v2, ?_⟩
+  · cases h; rfl
+  · cases h; exact ⟨rfl, rfl, rfl, rfl, rfl⟩
 
 /-- a loaded configuration: every raw rule passed `loadRule` (for the defaults `load` computed) -/
 theorem load_ok_rules {rxOk : Bytes → Bool} {db : List V} {dq : List (V × V)} {raw : RawConfig V} {cfg : Config V}
@@ -215,9 +432,42 @@ theorem load_ok_rules {rxOk : Bytes → Bool} {db : List V} {dq : List (V × V)}
       ∃ obs0 tim0 mt0, optDec decObserverType raw.defaults.observerType = .ok obs0 ∧
         optDec decObserverType raw.defaults.timerType = .ok tim0 ∧
         optDec decMatchType raw.defaults.matchType = .ok mt0 ∧
-        dm = mt0.getD .glob ∧ dobs = defaultObs obs0 tim0 := by
-  obtain ⟨obs0, tim0, mt0, h1, h2, h3, d, rules, hm, _, e1, e2⟩ := load_ok_inv h
+        dm = mt0.getD .glob ∧ dobs = defaultObs obs0 tim0 ∧
+        dbk = effDefBuckets raw db ∧ dqu = effDefQuantiles raw dq ∧
+        dma = (defSumOpts raw).maxAge ∧ dab = (defSumOpts raw).ageBuckets := by
+  obtain ⟨obs0, tim0, mt0, h1, h2, h3, d, rules, hm, _, e1, e2, e3, e4, e5, e6, _⟩ := load_ok_inv h
   obtain ⟨rule, hrule⟩ := mapM_ok_all _ _ _ hm r hr
-  exact ⟨_, _, _, _, _, _, _, _, rule, hrule, obs0, tim0, mt0, h1, h2, h3, e1, e2⟩
+  exact ⟨_, _, _, _, _, _, _, _, rule, hrule, obs0, tim0, mt0, h1, h2, h3, e1, e2, e3, e4, e5, e6⟩
+
+/-- `mapM` in `Except`: every element of the result comes from an element of the input -/
+theorem mapM_ok_mem {ε α β} (f : α → Except ε β) :
+    ∀ (l : List α) (out : List β), l.mapM f = .ok out → ∀ b, b ∈ out → ∃ a, a ∈ l ∧ f a = .ok b := by
+  intro l
+  induction l with
+  | nil =>
+    intro out h b hb
+    rw [List.mapM_nil] at h
+    cases h; cases hb
+  | cons x t ih =>
+    intro out h b hb
+    rw [List.mapM_cons] at h
+    obtain ⟨y, hy, h⟩ := except_ok_of_bind h
+    obtain ⟨ys, hys, h⟩ := except_ok_of_bind h
+    cases h
+    rcases List.mem_cons.mp hb with e | hbt
+    · subst e; exact ⟨x, List.mem_cons_self .., hy⟩
+    · obtain ⟨a, ha, hfa⟩ := ih ys hys b hbt
+      exact ⟨a, List.mem_cons_of_mem _ ha, hfa⟩
+
+/-- every rule of a loaded configuration is the image of a raw rule under `loadRule` (for the validated defaults) -/
+theorem load_ok_rule_of_mem {rxOk : Bytes → Bool} {db : List V} {dq : List (V × V)} {raw : RawConfig V} {cfg : Config V}
+    (h : load rxOk db dq raw = .ok cfg) (rule : Rule V) (hr : rule ∈ cfg.rules) :
+    ∃ dm dobs dt dbc r, r ∈ raw.rules ∧
+      loadRule rxOk dm dobs dt cfg.dBuckets cfg.dQuantiles cfg.dMaxAge cfg.dAgeBuckets dbc r = .ok rule := by
+  obtain ⟨_, _, _, _, _, _, d, rules, hm, e0, _, _, _, _, _, _, _, _, _, e7, e8, e9, e10⟩ := load_ok_inv h
+  rw [e0] at hr
+  obtain ⟨r, hrm, hl⟩ := mapM_ok_mem _ _ _ hm rule hr
+  rw [← e7, ← e8, ← e9, ← e10] at hl
+  exact ⟨_, _, _, _, r, hrm, hl⟩
 
 end SE
